@@ -457,11 +457,15 @@ def run(ctx):
         # member of an abstract type is hidden) and must then report exactly what it has become
         members = sorted(set(m for t in ir.types.values() if t.kind in ("interface", "union")
                              for m in ir.possible_types(t.name)) - set(n for _k, n in ir.roots()))
+        # ... or a whole root operation type other than the query root is hidden
+        members = members + sorted(set(n for k, n in ir.roots() if k != "query" and n != ir.query))
         if members:
             from py_gql.schema.transforms import VisibilitySchemaTransform
             from .c14 import apply_visibility
 
             gone = rng.choice(members)
+            if gone in (ir.mutation, ir.subscription):
+                ctx.count("in_place_change_hides_a_root_type")
 
             class Hide(VisibilitySchemaTransform):
                 def is_type_visible(self, name):
